@@ -14,6 +14,7 @@ package main
 import (
 	"bufio"
 	"fmt"
+	"net"
 	"os"
 	"runtime"
 	"sort"
@@ -24,6 +25,7 @@ import (
 	"time"
 
 	"github.com/talostrading/sonic"
+	"github.com/talostrading/sonic/codec/websocket"
 	"github.com/talostrading/sonic/sonicerrors"
 )
 
@@ -198,6 +200,19 @@ func postDirect(seed uint64, tier string, args []string, w *bufio.Writer) {
 		fmt.Fprintf(w, "DIRECT-FAIL key=post.%s mode=pingpong posts=%d\n", why, 3*pp)
 	}
 	total += 3 * pp
+	// the library's own cross-goroutine hand-off: AsyncHandshake dials on another goroutine and must deliver the
+	// completion (state change included) through Post, on the loop goroutine
+	ho := 6
+	if tier == "thorough" {
+		ho = 40
+	}
+	for i := 0; i < ho; i++ {
+		if ok, why := postHandshakeHandoff(i%2 == 0); !ok {
+			fails++
+			fmt.Fprintf(w, "DIRECT-FAIL key=post.%s mode=handshake-handoff success=%v\n", why, i%2 == 0)
+			break
+		}
+	}
 	fmt.Fprintf(w, "DIRECT-STAT {\"post_stress_rounds\": %d, \"post_stress_handlers\": %d, \"post_stress_failures\": %d}\n", rounds, total, fails)
 }
 
@@ -231,6 +246,10 @@ func postStress(posters, per, nest int, slowLoop bool) (bool, string, int) {
 				}
 				if atomic.AddInt32(&counts[id], 1) != 1 {
 					bad.Store("handler-ran-twice")
+				}
+				if ioc.Pending() < 1 {
+					// the handler is counted from Post until after it has returned
+					bad.Store("pending-does-not-count-the-running-handler")
 				}
 				if gen == 0 {
 					if int64(seq) <= lastSeq[poster] {
@@ -341,7 +360,12 @@ func postPingPong(posters, per int) (bool, string) {
 				defer wg.Done()
 				for s := 0; s < per && atomic.LoadInt32(&stop) == 0; s++ {
 					ran := make(chan struct{})
-					if err := ioc.Post(func() { close(ran) }); err != nil {
+					if err := ioc.Post(func() {
+						if ioc.Pending() < 1 {
+							stuck.Store("pending-does-not-count-the-running-handler")
+						}
+						close(ran)
+					}); err != nil {
 						stuck.Store("post-returned-error")
 						return
 					}
@@ -381,4 +405,76 @@ func postPingPong(posters, per int) (bool, string) {
 	case <-time.After(120 * time.Second):
 		return false, "loop-deadlocked"
 	}
+}
+
+// postHandshakeHandoff: AsyncHandshake (successful against a conforming mock server, or refused) with the loop NOT
+// running; once the completion is queued (Posted()==1) the stream must still be untouched — state, next layer — and
+// the callback must not have run; polling then runs it on the loop's OS thread.
+func postHandshakeHandoff(success bool) (bool, string) {
+	runtime.LockOSThread()
+	defer runtime.UnlockOSThread()
+	ioc, err := sonic.NewIO()
+	if err != nil {
+		return false, "newio"
+	}
+	defer ioc.Close()
+	loopTid := syscall.Gettid()
+	s, err := websocket.NewWebsocketStream(ioc, nil, websocket.RoleClient)
+	if err != nil {
+		return false, "newstream"
+	}
+	ln, err := net.Listen("tcp", "127.0.0.1:0")
+	if err != nil {
+		return false, "listen"
+	}
+	addr := "ws://" + ln.Addr().String() + "/"
+	done := make(chan bool, 1)
+	out := make(chan wshsServerResult, 1)
+	if success {
+		plan := wshsPlan{mode: "async", closeAt: -1,
+			resp: []byte("HTTP/1.1 101 Switching Protocols\r\nUpgrade: websocket\r\nConnection: Upgrade\r\nSec-WebSocket-Accept: " + strings.Repeat("@", 28) + "\r\n\r\n")}
+		go wshsServe(ln, plan, done, out)
+	} else {
+		ln.Close() // nobody listens: the dial is refused
+	}
+	before := s.State()
+	var cbTid int32 = -1
+	var cbErr error
+	fired := false
+	s.AsyncHandshake(addr, func(err error) { cbErr = err; fired = true; atomic.StoreInt32(&cbTid, int32(syscall.Gettid())) })
+	deadline := time.Now().Add(5 * time.Second)
+	for ioc.Posted() == 0 && time.Now().Before(deadline) {
+		time.Sleep(200 * time.Microsecond)
+	}
+	why := ""
+	switch {
+	case ioc.Posted() == 0:
+		why = "handshake-completion-never-posted"
+	case fired:
+		why = "handshake-callback-ran-off-the-loop"
+	case s.State() != before:
+		why = "handshake-changed-the-stream-off-the-loop"
+	}
+	if why == "" {
+		for i := 0; i < 50 && !fired; i++ {
+			_, _ = ioc.PollOne()
+		}
+		switch {
+		case !fired:
+			why = "handshake-callback-never-run"
+		case int(atomic.LoadInt32(&cbTid)) != loopTid:
+			why = "handler-off-loop-thread"
+		case success && (cbErr != nil || s.State() != websocket.StateActive):
+			why = "handshake-failed-against-conforming-server"
+		case !success && (cbErr == nil || s.State() != websocket.StateTerminated):
+			why = "refused-handshake-not-reported"
+		}
+	}
+	if success {
+		done <- true
+		<-out
+		_ = s.CloseNextLayer()
+		ln.Close()
+	}
+	return why == "", why
 }
